@@ -133,3 +133,40 @@ def lib_levels(cell):
 
 def ref_levels(rc):
     return (rc.mask, [rc.hash(l) for l in range(4)], [rc.depth(l) for l in range(4)])
+
+
+def deep_repr(v, _path=None, _depth=0):
+    """structural description of any value returned by the library (objects by class name and attributes, cells by hash,
+    slices / builders by their remaining content, containers recursively; cycles and absurd depth are reported, not
+    followed) - for comparing two results of the same call"""
+    from pytoniq_core.boc import Cell, Slice, Builder
+    if _path is None:
+        _path = set()
+    if v is None or isinstance(v, (bool, int, float, str, bytes)):
+        return v
+    if isinstance(v, bytearray):
+        return bytes(v)
+    if id(v) in _path:
+        return ('CYCLE', type(v).__name__)
+    if _depth > 60:
+        return ('TOO-DEEP', type(v).__name__)
+    _path.add(id(v))
+    try:
+        if isinstance(v, Cell):
+            return ('Cell', v.hash.hex())
+        if isinstance(v, Slice):
+            return ('Slice', v.bits.to01(), tuple(r.hash.hex() for r in v.refs[v.ref_offset:]))
+        if isinstance(v, Builder):
+            return ('Builder', v.bits.to01(), tuple(r.hash.hex() for r in v.refs))
+        if isinstance(v, dict):
+            return ('dict', tuple((deep_repr(k, _path, _depth + 1), deep_repr(x, _path, _depth + 1)) for k, x in v.items()))
+        if isinstance(v, (list, tuple)):
+            return (type(v).__name__, tuple(deep_repr(x, _path, _depth + 1) for x in v))
+        if hasattr(v, 'to01'):
+            return ('bits', v.to01())
+        d = getattr(v, '__dict__', None)
+        if d is not None:
+            return (type(v).__name__, tuple((k, deep_repr(x, _path, _depth + 1)) for k, x in sorted(d.items()) if not callable(x)))
+        return ('repr', type(v).__name__, repr(v)[:200])
+    finally:
+        _path.discard(id(v))
